@@ -88,6 +88,7 @@ type exprObs struct {
 	Err   string
 	Val   *ast.Term
 	Back  string // conversion problem
+	Mut   string // the evaluation changed its own operands / a second evaluation answered differently
 }
 
 func libEval(e ast.Expr, env map[string]ast.Term) exprObs {
@@ -101,7 +102,25 @@ func libEval(e ast.Expr, env map[string]ast.Term) exprObs {
 			t := s.Term(v)
 			vals[id] = &t
 		}
+		show := func() string {
+			flat := map[datalog.Variable]datalog.Term{}
+			for k, v := range vals {
+				flat[k] = *v
+			}
+			return fmt.Sprintf("%v | %v", de, flat)
+		}
+		before := show()
 		res, err := de.Evaluate(vals, s.T)
+		// an evaluation reads its operands: the expression and the bindings must be what they
+		// were, and evaluating the same expression again must give the same answer
+		if after := show(); after != before {
+			o.Mut = fmt.Sprintf("operands changed by the evaluation: before %s, after %s", core.Head(before, 300), core.Head(after, 300))
+		} else {
+			res2, err2 := de.Evaluate(vals, s.T)
+			if (err == nil) != (err2 == nil) || (err == nil && fmt.Sprintf("%v", res) != fmt.Sprintf("%v", res2)) {
+				o.Mut = fmt.Sprintf("second evaluation of the same expression: first (%v, %v), second (%v, %v)", res, err, res2, err2)
+			}
+		}
 		if err != nil {
 			o.Err = err.Error()
 			return
@@ -130,6 +149,9 @@ func c06Compare(c *core.C, cell string, e ast.Expr, env map[string]ast.Term) str
 	case got.Panic != nil:
 		c.Violate("expr-panic/"+got.Panic.Site+"/"+cell, fmt.Sprintf("expression evaluation panicked: %s on %s", got.Panic.Msg, e.Key()), wit())
 		return "panic"
+	case got.Mut != "":
+		c.Violate("expr-mutates-operands/"+cell, got.Mut+" on "+e.Key(), wit())
+		return "mutated"
 	case got.Back != "":
 		c.Violate("expr-bad-result/"+cell, "result term cannot be resolved: "+got.Back, wit())
 		return "bad"
